@@ -29,7 +29,8 @@ def prelude(L):
 #undef VB_LIST_PUSH_BACK
 #define VB_LIST_PUSH_BACK(l, x) do { if ((l).tail < VB_L) { (l).items[(l).tail] = (x); (l).tail++; } else { vb_list_overflow = 1; __CPROVER_assume(0); } } while (0)
 int vb_blocked;
-#define VB_WAIT(cv, pred) do { if (!(pred)) { vb_blocked = 1; __CPROVER_assume(0); } } while (0)
+struct UncompressedFile; struct vb_cv; void vb_at_wait(struct UncompressedFile *f, struct vb_cv *cv);
+#define VB_WAIT(cv, pred) do { vb_at_wait(self, cv); if (!(pred)) { vb_blocked = 1; __CPROVER_assume(0); } } while (0)
 /* std::copy(first, last, d) -> VB_COPY(d, first, last): assumed to move the bytes; the ADDRESSING is checked here */
 void vb_copy(const void *dst, const void *first, const void *last);
 #define VB_COPY(dst, first, last) vb_copy((const void *)(dst), (const void *)(first), (const void *)(last))
@@ -81,6 +82,14 @@ void vb_copy(const void *dst, const void *first, const void *last)
     if (!(__CPROVER_same_object(user, s0) && (int64_t)__CPROVER_POINTER_OFFSET(user) - (int64_t)__CPROVER_POINTER_OFFSET(s0) == abs - start0)) vb_addr_bad = 1;
     if (abs <= X && X < abs + n) vb_hits++;
     vb_next_abs = abs + n;
+}
+/* C06, call-site fact of the exclusion lemma: when a reader starts to wait for n bytes the back-pressure threshold admits
+ * that many (the writer is held back only at tellp - tellg >= threshold >= n, where the reader's predicate already holds) */
+int64_t vb_req_n;
+void vb_at_wait(struct UncompressedFile *f, struct vb_cv *cv)
+{
+    if (cv == &f->tellpChanged)
+        __CPROVER_assert(vb_req_n <= f->m_bufferSize, "C06/UncompressedFile/read/the-reader-starts-to-wait-only-with-a-threshold-that-admits-its-request-(n<=bufferSize)");
 }
 #include "UncompressedFile.c"
 #include "AbstractFile.c"
@@ -162,7 +171,7 @@ def jobs(L, timeout):
     int64_t nclamp = (n + u.m_tellg > u.m_fileSize) ? u.m_fileSize - u.m_tellg : n;
     __CPROVER_assume(!u.m_abort);
     __CPROVER_assume(nclamp <= 0 || (k > 0 && P(0) <= u.m_tellg && u.m_tellg + nclamp <= u.m_tellp));
-    vb_dir = 1; start0 = u.m_tellg; vb_next_abs = u.m_tellg; vb_hits = 0;
+    vb_dir = 1; start0 = u.m_tellg; vb_next_abs = u.m_tellg; vb_hits = 0; vb_req_n = n;
     UncompressedFile_read(&u, s, n);
     int64_t want = nclamp > 0 ? nclamp : 0;
 '''
@@ -173,7 +182,8 @@ def jobs(L, timeout):
         ('read/every-chunk-addresses-the-container-holding-its-position-and-the-matching-place-in-the-destination', '!vb_addr_bad'),
         ('read/chunks-in-stream-order-without-gap-or-overlap', '!vb_order_bad && vb_next_abs == o.m_tellg + want'),
         ('read/every-delivered-position-copied-exactly-once-none-else', 'vb_hits == ((o.m_tellg <= X && X < o.m_tellg + want) ? 1 : 0)'),
-        ('read/frame-containers-put-position-declared-end-untouched', FRAME_LIST + ' && ' + same_containers() + ' && u.m_tellp == o.m_tellp && u.m_fileSize == o.m_fileSize && u.m_bufferSize == o.m_bufferSize && u.m_abort == o.m_abort && u.m_defaultLogContainerSize == o.m_defaultLogContainerSize'),
+        ('read/frame-containers-put-position-declared-end-untouched', FRAME_LIST + ' && ' + same_containers() + ' && u.m_tellp == o.m_tellp && u.m_fileSize == o.m_fileSize && u.m_abort == o.m_abort && u.m_defaultLogContainerSize == o.m_defaultLogContainerSize'),
+        ('read/the-threshold-is-raised-to-the-request-and-never-lowered', 'u.m_bufferSize == (n > o.m_bufferSize ? n : o.m_bufferSize)'),
         ('read/notifies-the-writer-side', 'u.tellgChanged.notified != o.tellgChanged.notified'),
         ('read/preserves-representation-invariant', 'RI(&u, k)'),
     ]
